@@ -124,6 +124,23 @@ def names_stored(node) -> Set[str]:
 class _ExprNorm(ast.NodeTransformer):
     def visit_Call(self, node):
         self.generic_visit(node)
+        # map(f, S) -> (f(x) for x in S) ; filter(None, S) -> (x for x in S if x) ; filter(lambda v: P, S) -> (v for v in S if P)
+        if isinstance(node.func, ast.Name) and node.func.id == "map" and len(node.args) == 2 and not node.keywords \
+                and isinstance(node.args[0], (ast.Name, ast.Attribute)):
+            v = ast.Name(id="_m", ctx=ast.Load())
+            return self._comp(ast.copy_location(ast.GeneratorExp(
+                elt=ast.Call(func=node.args[0], args=[v], keywords=[]),
+                generators=[ast.comprehension(target=ast.Name(id="_m", ctx=ast.Store()), iter=node.args[1], ifs=[], is_async=0)]), node))
+        if isinstance(node.func, ast.Name) and node.func.id == "filter" and len(node.args) == 2 and not node.keywords:
+            if isinstance(node.args[0], ast.Constant) and node.args[0].value is None:
+                v = ast.Name(id="_m", ctx=ast.Load())
+                return ast.copy_location(ast.GeneratorExp(elt=v, generators=[ast.comprehension(target=ast.Name(id="_m", ctx=ast.Store()), iter=node.args[1],
+                                                                                               ifs=[ast.Name(id="_m", ctx=ast.Load())], is_async=0)]), node)
+            if isinstance(node.args[0], ast.Lambda) and len(node.args[0].args.args) == 1:
+                lam = node.args[0]
+                nm = lam.args.args[0].arg
+                return ast.copy_location(ast.GeneratorExp(elt=ast.Name(id=nm, ctx=ast.Load()),
+                                                          generators=[ast.comprehension(target=ast.Name(id=nm, ctx=ast.Store()), iter=node.args[1], ifs=[lam.body], is_async=0)]), node)
         # f([x for ...]) -> f(x for ...) for consumers that only iterate
         fname_ = node.func.attr if isinstance(node.func, ast.Attribute) else (node.func.id if isinstance(node.func, ast.Name) else "")
         if fname_ in ("join", "any", "all", "sum", "min", "max", "sorted", "set", "frozenset", "tuple", "list", "dict", "OrderedDict", "next", "chain") \
@@ -317,8 +334,15 @@ class _ExprNorm(ast.NodeTransformer):
 
     def _comp(self, node):
         self.generic_visit(node)
-        for g in node.generators:
+        for gi, g in enumerate(node.generators):
             g.iter = self._seq(g.iter)
+            used = set()
+            for c in g.ifs:
+                used |= names_loaded(c)
+            for g2 in node.generators[gi + 1:]:
+                used |= names_loaded(g2.iter) | set().union(*[names_loaded(c) for c in g2.ifs]) if g2.ifs else names_loaded(g2.iter)
+            used |= (names_loaded(node.key) | names_loaded(node.value)) if isinstance(node, ast.DictComp) else names_loaded(node.elt)
+            g.target, g.iter = self._items_target(g.target, g.iter, used)
         # [i for i in X] -> list(X)
         if isinstance(node, ast.ListComp) and len(node.generators) == 1 and not node.generators[0].ifs and isinstance(node.elt, ast.Name) \
                 and isinstance(node.generators[0].target, ast.Name) and node.elt.id == node.generators[0].target.id:
@@ -344,9 +368,27 @@ class _ExprNorm(ast.NodeTransformer):
 
     visit_ListComp = visit_SetComp = visit_GeneratorExp = visit_DictComp = _comp
 
+    @staticmethod
+    def _items_target(target, it, used: Set[str]):
+        """for k, v in X.items() with k unused -> for v in X.values(); with v unused -> for k in X; for k in X.keys() -> for k in X"""
+        if isinstance(it, ast.Call) and isinstance(it.func, ast.Attribute) and not it.args and not it.keywords:
+            if it.func.attr == "items" and isinstance(target, ast.Tuple) and len(target.elts) == 2 and all(isinstance(t, ast.Name) for t in target.elts):
+                k, v = target.elts
+                if k.id not in used:
+                    return v, ast.Call(func=ast.Attribute(value=it.func.value, attr="values", ctx=ast.Load()), args=[], keywords=[])
+                if v.id not in used:
+                    return k, it.func.value
+            if it.func.attr == "keys":
+                return target, it.func.value
+        return target, it
+
     def visit_For(self, node):
         self.generic_visit(node)
         node.iter = self._seq(node.iter)
+        used = set()
+        for b in node.body + node.orelse:
+            used |= names_loaded(b)
+        node.target, node.iter = self._items_target(node.target, node.iter, used)
         return node
 
 
@@ -551,21 +593,32 @@ def norm_block(stmts: list) -> list:
                                                            value=_ifexp(subst(s.test, m), subst(aa[1], m), prev[1])), out[-1])
                     i += 1
                     continue
-        # ---- search loop: for T in IT: if C: return E   <rest -> return D>
-        if isinstance(s, ast.For) and not s.orelse and len(s.body) == 1 and isinstance(s.body[0], ast.If) and not s.body[0].orelse:
-            inner = s.body[0]
+        # ---- search loop (possibly nested): for T in IT: [for T2 in IT2:] if C: return E   <rest -> return D>
+        loops_ = []
+        cur_ = s
+        while isinstance(cur_, ast.For) and not cur_.orelse and len(cur_.body) == 1:
+            loops_.append(cur_)
+            cur_ = cur_.body[0]
+        if loops_ and isinstance(cur_, ast.If) and not cur_.orelse and len(loops_) <= 3:
+            inner = cur_
             ra = _single_return(inner.body)
             if ra is not None:
                 tail = norm_block(rest)
                 rb = _single_return(tail)
                 if rb is not None:
+                    gens = [ast.comprehension(target=l_.target, iter=l_.iter, ifs=[], is_async=0) for l_ in loops_]
                     if isinstance(ra, ast.Constant) and ra.value is True and isinstance(rb, ast.Constant) and rb.value is False:
-                        gen = ast.GeneratorExp(elt=inner.test, generators=[ast.comprehension(target=s.target, iter=s.iter, ifs=[], is_async=0)])
+                        gen = ast.GeneratorExp(elt=inner.test, generators=gens)
                         out.append(ast.copy_location(ast.Return(value=ast.Call(func=ast.Name(id="any", ctx=ast.Load()), args=[gen], keywords=[])), s))
                     else:
-                        gen = ast.GeneratorExp(elt=ra, generators=[ast.comprehension(target=s.target, iter=s.iter, ifs=[inner.test], is_async=0)])
+                        gens[-1].ifs = [inner.test]
+                        gen = ast.GeneratorExp(elt=ra, generators=gens)
                         out.append(ast.copy_location(ast.Return(value=ast.Call(func=ast.Name(id="next", ctx=ast.Load()), args=[gen, rb], keywords=[])), s))
                     return out
+        if isinstance(s, ast.For) and not s.orelse and len(s.body) == 1 and isinstance(s.body[0], ast.If) and not s.body[0].orelse:
+            inner = s.body[0]
+            if False:
+                    pass
             # ---- x = D; for T in IT: if C: x = E; break
             if len(inner.body) == 2 and isinstance(inner.body[1], ast.Break) and out:
                 aa = _single_assign([inner.body[0]])
